@@ -581,11 +581,11 @@ func offsetDiscipline(c *Check) {
 			if c2, ok := in.(*ssa.Call); ok {
 				if s2 := staticCallee(c2.Common()); s2 != nil {
 					switch s2.String() {
-					case "sync/atomic.StoreInt64":
+					case "sync/atomic.StoreInt64", "(*sync/atomic.Int64).Store":
 						kind = "set"
-					case "sync/atomic.AddInt64":
+					case "sync/atomic.AddInt64", "(*sync/atomic.Int64).Add":
 						kind = "add"
-					case "sync/atomic.LoadInt64":
+					case "sync/atomic.LoadInt64", "(*sync/atomic.Int64).Load":
 						kind = "get"
 					}
 				}
